@@ -14,14 +14,14 @@ from .. import tlc
 
 TRACE_MODULE = "codec/Trace_Serialize.tla"
 WIDE = ["PyInt", "PyFloat", "NpInt32", "NpInt64", "NpFloat32", "NpFloat64"]
-NARROW = ["NpInt8", "NpInt16", "NpUInt8", "NpUInt16", "NpUInt32", "NpUInt64", "NpFloat16"]
-DTYPES = ["int8", "int16", "int32", "int64", "uint8", "uint16", "uint32", "uint64", "float16", "float32", "float64", "bool"]
-WORDS = ["", "a", "ab", "snr", "q p", "x_1", "c{snr}", "{0}", "set{{A}}", "100%s", "}{", "Ab", "caf\u00e9 \u221a2"]
+NARROW = ["NpLongDouble", "NpInt8", "NpInt16", "NpUInt8", "NpUInt16", "NpUInt32", "NpUInt64", "NpFloat16"]
+DTYPES = ["int8", "int16", "int32", "int64", "uint8", "uint16", "uint32", "uint64", "float16", "float32", "float64", "bool", "float128"]
+WORDS = ["", "a", "ab", "snr", "q p", "x_1", "c{snr}", "{0}", "set{{A}}", "100%s", "}{", "Ab", "caf\u00e9 \u221a2", "a\udcffb", "\U0001F600 x"]
 
 
 # ------------------------------------------------------------------------------- random descriptions
 def rnd_num(rng, t):
-    if t in ("PyFloat", "NpFloat16", "NpFloat32", "NpFloat64"):
+    if t in ("PyFloat", "NpFloat16", "NpFloat32", "NpFloat64", "NpLongDouble"):
         r = rng.rand()
         if r < 0.08:  # +-inf (d = 0) and -0.0 (n = 0, d = -1); NaN is outside the property
             return {"t": t, "n": [1, -1][rng.randint(2)], "d": 0, "s": ""} if r < 0.06 else {"t": t, "n": 0, "d": -1, "s": ""}
@@ -131,7 +131,7 @@ def describe(o):
     if isinstance(o, np.generic):
         name = {"int8": "NpInt8", "int16": "NpInt16", "int32": "NpInt32", "int64": "NpInt64", "uint8": "NpUInt8",
                 "uint16": "NpUInt16", "uint32": "NpUInt32", "uint64": "NpUInt64", "float16": "NpFloat16",
-                "float32": "NpFloat32", "float64": "NpFloat64"}.get(str(o.dtype), "Np?" + str(o.dtype))
+                "float32": "NpFloat32", "float64": "NpFloat64", "float128": "NpLongDouble"}.get(str(o.dtype), "Np?" + str(o.dtype))
         n, d = (int(o), 1) if "Int" in name else frac(o)
         return {"t": name, "n": n, "d": d, "s": ""}
     if type(o) is str:
